@@ -238,6 +238,13 @@ class G:
         en = [s for s in ins if self.st[s]["en"]]
         dis = [s for s in ins if not self.st[s]["en"]]
         x = r.random()
+        lifers = [s for s in en if self.decl(s).get("life")]
+        if lifers and self.cls in ("life", "faults", "mix") and r.random() < 0.04:
+            # a before_sleep hook that fails: the dispatch reports it; what earlier hooks returned dies with that dispatch
+            self.steps.append({"op": "fault", "s": r.choice(lifers), "call": "before_sleep"})
+            self.steps.append({"op": "dispatch"})
+            self.steps.append({"op": "dispatch"})
+            return
         if new and (x < 0.25 or not ins):
             s = r.choice(new)
             if self.cls == "faults" and r.random() < 0.35:
